@@ -443,6 +443,7 @@ func runCheck(prop, tier string) int {
 	var crashes []violation
 	harnessErr := []string{}
 	shardsCutShort := 0
+	slowCases := 0
 	racePassRuns := 0
 	for _, pt := range parts {
 		pt := pt
@@ -520,6 +521,23 @@ func runCheck(prop, tier string) int {
 						return
 					}
 					if wr.stalled {
+						// A wall-clock watchdog must not become an oracle: on a heavily loaded machine a case that
+						// needs seconds of CPU can sit for minutes. Re-execute the case alone (6-minute limit): only a
+						// case that does not finish there either is a hang.
+						if okR, outp := replayCaseT(bin, pt.Test, tier, id, seed, "6m"); okR && strings.Contains(outp, "REPLAY-OK") {
+							fmt.Fprintf(os.Stderr, "note: case %q made no progress for %v inside shard %d but completes when re-executed alone (machine load): not a hang\n", id, stallLimit, sh)
+							mu.Lock()
+							slowCases++
+							mu.Unlock()
+							from = idx + 1
+							continue
+						} else if strings.Contains(outp, "REPLAY-VIOLATION") {
+							mu.Lock()
+							crashes = append(crashes, violation{part: pt, Case: id, Key: "violation-in-a-case-that-stalled-in-its-shard", Text: tailLines(outp, 12)})
+							mu.Unlock()
+							from = idx + 1
+							continue
+						}
 						mu.Lock()
 						crashes = append(crashes, violation{part: pt, Case: id, Key: "hang:" + hangKey(wr.stderr), Text: fmt.Sprintf("the case made no progress for %v (a goroutine spinning, or the bubble never becoming quiescent); goroutine dump of the killed worker:\n%s", stallLimit, tailLines(pionFrames(wr.stderr), 40))})
 						mu.Unlock()
@@ -576,6 +594,9 @@ func runCheck(prop, tier string) int {
 	var nondet []string
 	total, ran, skipped, evals, nontrivial := 0, 0, 0, 0, 0
 	exhaustive := shardsCutShort == 0
+	if slowCases > 0 {
+		counters["cases_stalled_in_shard_but_completed_alone"] += slowCases
+	}
 	var params map[string]any
 	totalByTest := map[string]int{}
 	for _, r := range results {
@@ -866,7 +887,11 @@ func firstN(s string, n int) string {
 }
 
 func replayCase(bin, test, tier, id, seed string) (bool, string) {
-	cmd := exec.Command(bin, "-test.run", "^"+test+"$", "-test.timeout", "10m", "-test.count", "1", "-test.v")
+	return replayCaseT(bin, test, tier, id, seed, "10m")
+}
+
+func replayCaseT(bin, test, tier, id, seed, limit string) (bool, string) {
+	cmd := exec.Command(bin, "-test.run", "^"+test+"$", "-test.timeout", limit, "-test.count", "1", "-test.v")
 	cmd.Dir = buildDir
 	cmd.Env = append(os.Environ(), "VCHECK_TIER="+tier, "VCHECK_CASE="+id, "VERIF_SEED="+seed, "GOMAXPROCS=1", "GODEBUG=asyncpreemptoff=1")
 	var buf bytes.Buffer
